@@ -19,3 +19,17 @@ func verifNoteFallback(offset, size int) {
 		f(offset, size)
 	}
 }
+
+// VerifBatchRemainder, when non-nil, is called by VerifyBatch when it verifies
+// the trailing entries of a batch one by one (the entries left over after the
+// last chunk that went through the batch equation), with the offset of the
+// first such entry and their number.
+//
+// It only exists when building with the `verif` build tag.
+var VerifBatchRemainder func(offset, size int)
+
+func verifNoteRemainder(offset, size int) {
+	if f := VerifBatchRemainder; f != nil {
+		f(offset, size)
+	}
+}
